@@ -512,7 +512,7 @@ def c08_extra(ctx):
         cases.append((name, text))
     hdr = 'package g\n\ntype P Peg {\n Trace string\n STrace string\n}\n\n'
     for n in ([300, 1200] if ctx.tier == 'quick' else [300, 1200, 3000, 70000]):
-        rules = ['R0 <- ' + ' / '.join('R%d' % i for i in range(1, min(n, 40))) + (' / R%d' % (n - 1) if n > 40 else '')]
+        rules = ['R0 <- ' + ' / '.join('R%d' % i for i in range(1, n, 50))]       # the heads of the chains: every rule is reachable
         for i in range(1, n):
             # chains of at most 50 rules: with -inline a chain is compiled as nested blocks, and go/parser refuses more than
             # 100000 levels of nesting (a resource limit of the Go toolchain, outside the property)
@@ -527,6 +527,7 @@ def c08_extra(ctx):
     add('import_plain', 'package g\n\nimport "strings"\n\ntype P Peg {\n Trace string\n STrace string\n}\n\nR0 <- <\'a\'+> { p.Trace += strings.ToUpper(text) }\n')
     add('import_alias', 'package g\n\nimport str "strings"\n\ntype P Peg {\n Trace string\n STrace string\n}\n\nR0 <- <\'a\'+> { p.Trace += str.ToUpper(text) }\n')
     add('import_group', 'package g\n\nimport (\n"strings"\n"unicode"\n)\n\ntype P Peg {\n Trace string\n STrace string\n}\n\nR0 <- <.> { if unicode.IsLetter([]rune(text)[0]) { p.Trace += strings.ToUpper(text) } }\n')
+    add('import_alias_runtime', 'package g\n\nimport sc "strconv"\n\ntype P Peg {\n Trace string\n STrace string\n}\n\nR0 <- <.> { p.Trace += sc.Itoa(len(text)) }\n')
     add('import_dup_runtime', 'package g\n\nimport "fmt"\n\ntype P Peg {\n Trace string\n STrace string\n}\n\nR0 <- <.> { p.Trace += fmt.Sprint(text) }\n')
     add('header_comments', '# a header comment\n// another one\n\n\npackage g\n\ntype P Peg {\n Trace string\n STrace string\n}\n\nR0 <- \'a\' R1 # trailing\n// between\nR1 <- \'b\'\n')
     add('odd_literals', hdr + "R0 <- '\\0x00' '\\t' '\\\\' '\\'' \"\\\"\" '\\0x7f' '\\0x80' '\\0xfffd' '\\0x10FFFF' 'é' '汉' [\\]\\[\\-] [\\0x00-\\0x1f] '*/' '/*' '`'\n")
@@ -706,15 +707,61 @@ def c10(ctx):
     for f in r.get('finding_list') or []:
         ctx.add('spec', 'T-front/probe', 'probe %s: %s (documented: %s, real: %s)' % (f.get('id'), f.get('note'), str(f.get('documented'))[:80], str(f.get('real'))[:80]),
                 {'probe': f.get('id'), 'text': f.get('text'), 'documented': f.get('documented'), 'real': f.get('real')})
+    nimp = c10_imports(ctx, T)
     c = r.get('counts', {})
     ctx.coverage.update({
-        'evaluations': int(c.get('well', 0)) + int(c.get('malformed', 0)) + int(c.get('probes', 0)),
+        'evaluations': int(c.get('well', 0)) + int(c.get('malformed', 0)) + int(c.get('probes', 0)) + nimp,
         'distinct_nontrivial': int(c.get('well', 0)),
         'rule': 'abstract grammars rendered in every spelling variant (quote style, every escape spelling in every character position, both arrows, # and // comments, spacing, CR/LF/CRLF, redundant parentheses, '
-                'imports single/aliased/grouped, header comments) compared REAL vs denote (spec) and REAL vs the model front end (PEG semantics of the regenerated peg.peg + builder model); malformed stream '
+                'imports single/aliased/grouped, header comments) compared REAL vs denote (spec); the import specs of the GENERATED file (go/ast) of import streams — plain, aliased, grouped, duplicates of and aliases for the runtime\'s own imports, under all option sets — contain every import of the grammar with its alias and equal the header model; and REAL vs the model front end (PEG semantics of the regenerated peg.peg + builder model); malformed stream '
                 '(truncate/delete/insert/swap/random bytes/hand-written shapes): real must reject or agree with the model, never panic; non-trivial = well-formed spelled texts',
         'samples': [(r.get('probe_results') or [{}])[0].get('text')], 'input_distribution': r.get('distribution'), 'counts': c,
     })
+
+
+def c10_imports(ctx, T):
+    """"imports keep their path and alias" in the GENERATED file: the import specs extracted from the emitted Go (go/ast) must
+    contain every import of the grammar with its alias, and equal the header model of T-emit."""
+    hdr = 'type P Peg {\n Trace string\n STrace string\n}\n\nR0 <- <.> { p.Trace += text }\n'
+    streams = {
+        'plain': (['"strings"'], 'import "strings"\n'),
+        'alias': (['str "strings"'], 'import str "strings"\n'),
+        'group': (['"strings"', '"unicode"'], 'import (\n"strings"\n"unicode"\n)\n'),
+        'group_alias': (['"strings"', 'u "unicode"'], 'import (\n"strings"\nu "unicode"\n)\n'),
+        'dup_runtime': (['"fmt"'], 'import "fmt"\n'),
+        'alias_runtime': (['sc "strconv"'], 'import sc "strconv"\n'),
+        'alias_and_plain_runtime': (['"fmt"', 'f2 "fmt"'], 'import "fmt"\nimport f2 "fmt"\n'),
+        'same_path_two_aliases': (['a1 "strings"', 'a2 "strings"'], 'import a1 "strings"\nimport a2 "strings"\n'),
+        'dot_path': (['"path/filepath"', 'mr "math/rand"'], 'import "path/filepath"\nimport mr "math/rand"\n'),
+    }
+    reqs, want = [], {}
+    for name, (specs, imp) in streams.items():
+        for o in L.OPTSETS:
+            rid = 'imp_%s_%s' % (name, o or 'd')
+            reqs.append({'id': rid, 'text': 'package g\n\n' + imp + '\n' + hdr, 'opts': o, 'tree': True, 'compile': True, 'ir': True})
+            want[rid] = (name, o, specs)
+    real = T.run_pegx_parallel(reqs)
+    model = {m['id']: m for m in T.run_model('emit', [{'id': r['id'], 'tree': x['tree'], 'opts': r['opts']} for r, x in zip(reqs, real) if x.get('tree')])}
+    n = 0
+    for r, x in zip(reqs, real):
+        name, o, specs = want[r['id']]
+        n += 1
+        got = ((x.get('ir') or {}).get('header') or {}).get('imports')
+        if got is None:
+            ctx.add('spec', 'T-front/imports', 'no generated file for the import stream %s (opts "%s"): %s' % (name, o, str({k: v for k, v in x.items() if k not in ('tree', 'go', 'ir')})[:300]),
+                    {'grammar': r['text'], 'opts': o})
+            continue
+        norm = [re.sub(r'\s+', ' ', g.strip()) for g in got]
+        missing = [sp for sp in specs if sp not in norm]
+        if missing:
+            ctx.add('spec', 'T-front/imports', 'the generated file lost the import(s) %s of the grammar (stream %s, opts "%s"): it imports %s' % (missing, name, o, norm),
+                    {'grammar': r['text'], 'opts': o, 'generated_imports': norm, 'missing': missing})
+        mh = ((model.get(r['id']) or {}).get('header') or {}).get('imports')
+        if mh is not None and mh != got:
+            ctx.add('model', 'T-emit/imports', 'import specs of the generated file differ from the header model (stream %s, opts "%s"): real %s | model %s' % (name, o, got, mh),
+                    {'grammar': r['text'], 'opts': o, 'real': got, 'model': mh})
+    ctx.coverage['import_streams'] = {'streams': sorted(streams), 'option_sets': len(L.OPTSETS), 'generated_files_checked': n}
+    return n
 
 
 def _probe_matcher(prefixes):
